@@ -170,6 +170,8 @@ async fn process_leader_message(
     worterbuch: &mut Worterbuch,
 ) -> WorterbuchAppResult<()> {
     trace!("Received leader sync message: {msg:?}");
+    #[cfg(feature = "verif")]
+    crate::verif::perturb("follower-apply").await;
 
     let res = match msg {
         LeaderSyncMessage::Init(_) => {
